@@ -207,10 +207,12 @@ fn gen_resp(t: &mut Tape, nparams: usize) -> RespTy {
     if nparams > 0 && t.chance(25) {
         RespTy::Param(t.pick(nparams))
     } else {
-        match t.pick(3) {
+        match t.weighted(&[30, 25, 25, 12, 8]) {
             0 => RespTy::EchoA,
             1 => RespTy::EchoB,
-            _ => RespTy::EchoC,
+            2 => RespTy::EchoC,
+            3 => RespTy::Bin,
+            _ => RespTy::Text,
         }
     }
 }
@@ -247,7 +249,7 @@ fn gen_handler(
     let err = if custom_err && t.chance(50) { ErrTy::Custom } else { ErrTy::Std };
     let resp = gen_resp(t, nparams);
     // `resp=<associated type>` in an interface does not compile (recorded finding, probed by C16)
-    let resp_explicit = kind == Kind::Query && t.chance(30) && !(assoc && matches!(resp, RespTy::Param(_)));
+    let resp_explicit = kind == Kind::Query && t.chance(30) && !(assoc && matches!(resp, RespTy::Param(_))) && !matches!(resp, RespTy::Bin | RespTy::Text);
     let mut variant_attrs = vec![];
     if opts.allow_attrs && kind.is_enum() && t.chance(10) {
         variant_attrs.push(VariantAttr::Marker(mk.next()));
